@@ -17,6 +17,7 @@ pub mod c15;
 pub mod c16;
 pub mod c17;
 pub mod c19;
+pub mod c18aux;
 pub mod statespace;
 pub mod lin;
 pub mod common;
